@@ -5,6 +5,7 @@ over atoms.  The tables are computed here from the library the middleware is abo
 own string helpers (_strip_enclosing, _enclose, resolve_month_field_val, split_multiple_persons_names,
 parse_single_name_into_parts, merge_*, _transform_python_value_string): those are C10/C12-C15/C18's subject.
 """
+from props import pubapi
 
 BLOCK_SPECS = None
 
@@ -82,7 +83,7 @@ def shipped_sx(spec, mw, lib):
     strs = [a for a in atoms if isinstance(a, str)]
     skip = False
     if n == "RemoveEnclosing":
-        return [0, ac("removed_enclosing"), [[ac(s)] + [ac(x) for x in mw._strip_enclosing(s)] for s in strs]], skip
+        return [0, ac("removed_enclosing"), [[ac(s)] + [ac(x) for x in pubapi.strip_enclosing(s)] for s in strs]], skip
     if n == "AddEnclosing":
         from bibtexparser.middlewares.enclosing import ENTRY_POTENTIALLY_INT_FIELDS, STRINGS_CAN_BE_UNESCAPED_INTS
         rows, seen = [], set()
@@ -97,7 +98,7 @@ def shipped_sx(spec, mw, lib):
                 return
             seen.add(k3)
             try:
-                rows.append([list(k3), ac(mw._enclose(v, prev, apply_int_rule=rule))])
+                rows.append([list(k3), ac(pubapi.enclose(mw, v, prev, rule))])
             except Exception:  # noqa: BLE001  (_enclose raises ValueError on an unknown enclosing: no row, the model raises too)
                 pass
         for b in lib.blocks:
@@ -122,12 +123,18 @@ def shipped_sx(spec, mw, lib):
         order = sorted(set(strs))
         return [4, [[ac(s), order.index(s)] for s in strs], 0, ac("sorted_fields_alphabetically"), [0, ac(True)]], skip
     if n == "SortFieldsCustom":
-        order = list(mw._order)
+        # the configuration is the harness's own (spec); what the middleware records in the metadata is observed on a probe entry
+        import props.c07 as P
+        from bibtexparser.library import Library
+        cs, given = bool(spec[2]), tuple(P.FIELD_ORDERS[spec[1]])
+        order = list(given) if cs else [x.lower() for x in given]
         rows = []
         for s in strs:
-            k = s if mw._case_sensitive else s.lower()
+            k = s if cs else s.lower()
             rows.append([ac(s), order.index(k) if k in order else len(order)])
-        mv = [1, [ac(x) for x in mw._order]] if isinstance(mw._order, list) else [0, ac(mw._order)]
+        seen_md = make_mw(spec, True).transform(Library([Entry("article", "k", [Field("x", "1")])])).blocks[0].parser_metadata.get(
+            "sorted_fields_custom")
+        mv = [1, [ac(x) for x in seen_md]] if isinstance(seen_md, list) else [0, ac(seen_md)]
         return [4, rows, len(order), ac("sorted_fields_custom"), mv], skip
     nk = [ac(k) for k in getattr(mw, "name_fields", ())]
     if n == "SeparateCoAuthors":
@@ -169,8 +176,8 @@ def shipped_sx(spec, mw, lib):
         rows = []
         for a in atoms:
             if isinstance(a, str):
-                r, e = mw._transform_python_value_string(a)
-                rows.append([ac(a), ac(r), int(e != "")])
+                r, e = pubapi.latex_convert(mw, a)
+                rows.append([ac(a), ac(r), e])
             else:
                 rows.append([ac(a)])
         return [9, rows], skip
